@@ -266,7 +266,7 @@ def run_check(mod, tier, seed, workers=None):
             'distinct_nontrivial': len(nontriv),
             'rule': mod.RULE,
             'samples': samples[:6] or ['(no sample recorded)'],
-            'exhaustive': bool(exhaustive) and not any(k.startswith(('deviation-bounded', 'configurations-that-reached')) and v for k, v in extra.items()),
+            'exhaustive': bool(exhaustive) and not any(k.startswith(('deviation-bounded', 'configurations-that-reached', 'cap-reached')) and v for k, v in extra.items()),
             'mode': getattr(mod, 'MODE', ''),
             'universe': uni,
             'distinct_outcomes': len(outcomes),
